@@ -519,7 +519,7 @@ func (vc *VC) loopEffects(act *Act, body map[*ssa.BasicBlock]bool) loopFacts {
 						if fc := vc.eng.contractFor(callee); fc != nil {
 							noteContract(fc)
 						} else if vc.eng.externFor(callee) == nil && vc.eng.ifaceContractOfImpl(callee) == nil && len(vc.eng.eventsFor("call", vc.eng.eventKeyOf(callee))) == 0 {
-							for g := range vc.eng.reachableGhosts(callee) {
+							for _, g := range sortedSet(vc.eng.reachableGhosts(callee)) {
 								lf.ghosts[g] = true
 							}
 						}
@@ -727,7 +727,14 @@ func (vc *VC) cutLoop(act *Act, h *ssa.BasicBlock, st *State, phiVals map[*ssa.P
 	}
 	act.loopCutPos[h] = len(vc.asserts)
 	// 2. havoc
-	for phi := range phiVals {
+	for _, ins := range h.Instrs { // in instruction order (not map order): the VC text must be reproducible
+		phi, ok := ins.(*ssa.Phi)
+		if !ok {
+			break
+		}
+		if _, ok := phiVals[phi]; !ok {
+			continue
+		}
 		v := vc.freshVal(ns, "lp_"+sanitize(phi.Comment), phi.Type())
 		act.env[phi] = v
 		if phi.Comment == "rangeindex" {
@@ -853,6 +860,7 @@ func (vc *VC) havocTyped(act *Act, ns, before *State, lf loopFacts) {
 	known := map[string]bool{}
 	var refs []string
 	for a := act; a != nil; a = a.parent {
+		var level []string
 		for _, v := range a.env {
 			var r string
 			switch x := v.(type) {
@@ -865,9 +873,11 @@ func (vc *VC) havocTyped(act *Act, ns, before *State, lf loopFacts) {
 			}
 			if r != "" && r != "0" && isAtom(r) && !known[r] {
 				known[r] = true
-				refs = append(refs, r)
+				level = append(level, r)
 			}
 		}
+		sort.Strings(level) // (the environment is a map: fix the order)
+		refs = append(refs, level...)
 	}
 	for _, r := range vc.seenRefs {
 		if !known[r] {
